@@ -1,7 +1,7 @@
 (* C12 — statements only.  Finite bound 2j <= 8 is the property's own quantifier. *)
 From Coq Require Import Reals List ZArith QArith Bool.
 From Coquelicot Require Import Complex.
-From TFV Require Import Base.RBase Rot.Wigner Rot.Wigner_unit Rot.Wigner_proofs Rot.DHom_ids Rot.DHom Rot.CG Rot.CG_proofs.
+From TFV Require Import Base.RBase Rot.Wigner Rot.Wigner_unit Rot.Wigner_proofs Rot.DHom_ids Rot.DHom Rot.DHom_apps Rot.CG Rot.CG_proofs.
 Import ListNotations.
 Open Scope R_scope.
 
@@ -63,6 +63,22 @@ Theorem C12_spin_half_is_identity_rep : forall a b c d : C,
   DmatM 1 (-1) 1 (a, b, c, d) = c /\ DmatM 1 (-1) (-1) (a, b, c, d) = d.
 Proof. exact Dmat_half. Qed.
 Print Assumptions C12_spin_half_is_identity_rep.
+
+(* Euler angles extracted by SU2M.get_euler_angle reproduce the SU(2) element: under the contract of tf.math.angle
+   (apg, amg given by their cosine and sine) and of acos (beta in [0,pi] with the code's cos beta), the spin-1/2
+   conjugated D matrix of (alpha, beta, gamma) = (apg+amg, beta, apg-amg) has exactly the entries of x *)
+Theorem C12_euler_extract_reproduces : forall (x00 x01 x10 x11 : C) apg amg beta,
+  x00 = Cconj x11 -> x01 = Copp (Cconj x10) ->
+  Cmod x11 ^ 2 + Cmod x10 ^ 2 = 1 -> x11 <> RtoC 0 -> x10 <> RtoC 0 ->
+  cos apg = fst x11 / Cmod x11 -> sin apg = snd x11 / Cmod x11 ->
+  cos amg = fst x10 / Cmod x10 -> sin amg = - snd x10 / Cmod x10 ->
+  0 <= beta <= PI -> cos beta = fst (x00 * x11 + x01 * x10)%C ->
+  Dconj 1 (-1) (-1) (apg + amg) beta (apg - amg) = x00 /\
+  Dconj 1 1 (-1) (apg + amg) beta (apg - amg) = x01 /\
+  Dconj 1 (-1) 1 (apg + amg) beta (apg - amg) = x10 /\
+  Dconj 1 1 1 (apg + amg) beta (apg - amg) = x11.
+Proof. exact euler_extract_reproduces. Qed.
+Print Assumptions C12_euler_extract_reproduces.
 
 (* Clebsch-Gordan (Racah closed form, exact radicals): normalisation and the two sign symmetries
    used by the table lookup, all j <= 4 *)
